@@ -347,6 +347,13 @@ def rule_d(ctx):
                     a = strip_epoch(e.data['args'][0].term)
                     if a[0] == 'item' and a[2][0] == 'slice' and buffer_ok(a[1]):
                         hdr_pos = to_lin(a[2][1], atoms) if a[2][1] != ('const', None) else Lin.k(0)
+                        if a[2][2] != ('const', None):
+                            hdr_width = to_lin(a[2][2], atoms) - hdr_pos
+                            # the longest legal header: one length byte + a 128-byte custom name
+                            if not (hdr_width.is_const() and hdr_width.const >= 129):
+                                ok = False
+                                detail = 'the header parser is handed only %r bytes; a custom MIME name of the legal ' \
+                                         'maximum (1 + 128 bytes) is truncated' % hdr_width
                 if e.kind == 'store' and e.data['target'][0] == 'local':
                     t = e.data['value'].term
                     try:
@@ -356,8 +363,9 @@ def rule_d(ctx):
                     if r is not None and r.kind == 'int' and r.nbytes == 3 and len_read is None and \
                             e.func is par:
                         len_read = (r, t)
-                    if r is not None and r.kind == 'bytes' and e.func is par and content is None:
-                        content = r
+                    if r is not None and r.kind == 'bytes' and e.func is par and len_read is not None and \
+                            r.width is not None and r.width == to_lin(len_read[1], atoms):
+                        content = r  # the slice whose width is the length just read
             wl = [n_ for n_ in walk_local(par.node) if isinstance(n_, ast.While)]
             cursor = None
             if wl and isinstance(wl[0].test, ast.Compare) and isinstance(wl[0].test.left, ast.Name):
@@ -365,7 +373,8 @@ def rule_d(ctx):
             offs = [e for e in p.events if e.kind == 'store' and e.data['target'] == ('local', cursor) and
                     e.func is par and e.seq < back[0].seq]
             if hdr_pos is None or len_read is None or content is None or not offs:
-                ok, detail = False, 'an iteration does not read header, 24-bit length and content from the buffer'
+                ok, detail = False, 'an iteration does not read header, 24-bit length and a content slice of that ' \
+                                    'length from the buffer'
                 continue
             start = hdr_pos
             final = to_lin(offs[-1].data['value'].term, atoms)
